@@ -327,6 +327,7 @@ for _k, _v in _EXTRA11.items():
 _EXTRA12 = {
  'C04': ' A constant is added to a transform matrix element in 64 bits only (C04-R16, defect F46 - fixed); the header fields of a kernel block are bounded before it is installed (C04-R17, defect F47 - fixed).',
  'C09': ' The COVER_CLIP flags (and the opaque promotion that follows) are derived from the transformed corners only for affine transforms (C09-R12, defect F48 - fixed).',
+ 'C13': ' The reflected conical angle keeps its half-open interval (C13-R15, defect F49 - fixed).',
  'C18': ' Every header field of a kernel block is bounded below, shift counts above too, on every installing path (C18-R13, defect F47 - fixed).',
 }
 for _k, _v in _EXTRA12.items():
